@@ -16,11 +16,11 @@ PLANS = {
     "C03": [("churn", 250, 6000), ("timeout", 80, 2000), ("bclose", 80, 2000)],
     "C07": [("base", 200, 5000), ("fwdonly", 150, 4000), ("errors", 150, 4000)],
     "C09": [("gate", 250, 6000), ("fwdonly", 150, 4000)],
-    "C10": [("base", 200, 5000), ("fwdonly", 200, 5000)],
+    "C10": [("base", 200, 5000), ("fwdonly", 200, 5000), ("redirect", 150, 4000), ("redirorder", 60, 1500)],
     "C11": [("errors", 300, 8000), ("errredir", 250, 6000)],
-    "C13": [("redirect", 300, 7000), ("redirunk", 150, 3000), ("errredir", 150, 3000)],
+    "C13": [("redirect", 300, 7000), ("redirunk", 150, 3000), ("errredir", 150, 3000), ("redirtimeout", 150, 4000)],
     "C15": [("bclose", 300, 7000), ("redirunk", 150, 3000)],
-    "C16": [("timeout", 400, 10000)],
+    "C16": [("timeout", 400, 10000), ("redirtimeout", 200, 5000), ("redirexpire", 80, 2000)],
     "C06": [("base", 120, 3000), ("fwdonly", 120, 3000)],
     "C08": [],
     # the event-loop side of C12 (lib/raw_checks.py holds the byte-level catalogue and calls run() here)
@@ -86,7 +86,10 @@ def run(pid, tier, seed):
                "model": [], "conformance": {"accepted": 0, "drift": [], "unchecked": 0}, "generated": 0}
         # 1. the design: exhaustive TLC run of the model for this property's configuration
         mcp = MC_OF.get(pid, pid)
-        for cfgname in (["MC_%s.cfg" % mcp] if q else ["MC_%s.cfg" % mcp, "MC_%st.cfg" % mcp]):
+        cfgs = ["MC_%s.cfg" % mcp] if q else ["MC_%s.cfg" % mcp, "MC_%st.cfg" % mcp]
+        if not q and os.path.exists(os.path.join(common.SPEC, "MC_%sL.cfg" % mcp)):
+            cfgs.append("MC_%sL.cfg" % mcp)      # liveness: every behaviour reaches quiescence (RcProxy!Terminates)
+        for cfgname in cfgs:
             mc = common.model_check(cfgname)
             if not mc["ok"]:
                 raise Inconclusive("the design model does not satisfy its invariants under %s (a defect of the model "
